@@ -120,12 +120,132 @@ def gen():
             w("    assert(acc_%s_%d(acc, p) =~= acc + enc_%s_upto_%d(p));" % (name, k, name, k))
         w("}")
         w("pub open spec fn enc_%s_body(p: %s) -> Seq<u8> { enc_%s_fields(p) + enc_ups(p.user_properties@) }" % (name, name, name))
+        allf = [PROPS[q][2] for q in props]
+        # trusted specs of the derived impls (A11; `@derived` checks the real type still derives them)
+        eqs = " && ".join(["self.%s == other.%s" % (f, f) for f in allf] + ["self.user_properties@ =~= other.user_properties@"])
+        w("impl vstd::std_specs::cmp::PartialEqSpecImpl for %s { open spec fn obeys_eq_spec() -> bool { true }" % name)
+        w("    open spec fn eq_spec(&self, other: &%s) -> bool { %s } }" % (name, eqs))
+        nones = " && ".join(["p.%s is None" % f for f in allf] + ["p.user_properties@.len() == 0"])
+        w("pub open spec fn %s_empty(p: %s) -> bool { %s }" % (name, name, nones))
+        w("pub assume_specification [<%s as Default>::default]() -> (r: %s) ensures %s_empty(r);" % (name, name, name))
         oks = ["%s(p.%s)" % (OKFN[PROPS[q][1]], PROPS[q][2]) for q in props if PROPS[q][1] in OKFN]
         oks.append("ups_ok(p.user_properties@)")
         oks.append("enc_%s_body(p).len() < 268435456" % name)
         w("pub open spec fn %s_ok(p: %s) -> bool { %s }" % (name, name, " && ".join(oks)))
     w("@endspec")
     w("")
+    enc_out = out
+    out = []
+    w = out.append
+    w("## GENERATED by tools/gen_v5props.py from the MQTT 5.0 property table - do not edit by hand")
+    w("## Decoders of the 14 v5 property sets (types and encoder specs are in v5props.vc)")
+    w("")
+    w("@spec")
+    # ---- decoder specs (accumulator-style loop; the `len` bookkeeping is the crate's: bytes of the *minimal* encoding)
+    for name, mod, props, is_will in SETS:
+        allf = [PROPS[q][2] for q in props]
+        empty = ", ".join(["%s: None" % f for f in allf] + ["user_properties: mk_vec(Seq::<UserProperty>::empty())"])
+        w("pub open spec fn empty_%s() -> %s { %s { %s } }" % (name, name, name, empty))
+        w("#[verifier::opaque]")
+        w("pub open spec fn p5_%s_loop(s: Seq<u8>, plen: nat, len: nat, acc: %s, used: nat, pt: PacketType) -> PR<%s, ErrorV5>" % (name, name, name))
+        w("    decreases (if plen > len { (plen - len) as nat } else { 0nat })")
+        w("{")
+        w("    if plen <= len { if plen != len { PR::Err(ErrorV5::InvalidPropertyLength(plen as u32)) } else { PR::Ok(acc, used) } }")
+        w("    else if s.len() == 0 { PR::Inc }")
+        w("    else { match property_id_of(s[0]) {")
+        w("        Err(e) => PR::Err(e),")
+        w("        Ok(id) =>")
+        first = True
+        for q in props:
+            pid, ty, f = PROPS[q]
+            kw = "if" if first else "else if"
+            first = False
+            lenexpr = "len + 1 + vlen(v.0 as nat)" if ty == "varint" else "len + 1 + n"
+            w("            %s id == PropertyId::%s { match step_%s(s.skip(1), id, acc.%s) { PR::Inc => PR::Inc, PR::Err(e) => PR::Err(e)," % (kw, q, ty, f))
+            w("                PR::Ok(v, n) => p5_%s_loop(s.skip(1 + n as int), plen, %s, %s { %s: Some(v), ..acc }, used + 1 + n, pt) } }" % (name, lenexpr, name, f))
+        kw = "if" if first else "else if"
+        w("            %s id == PropertyId::UserProperty { match step_up(s.skip(1)) { PR::Inc => PR::Inc, PR::Err(e) => PR::Err(e)," % kw)
+        w("                PR::Ok(v, n) => p5_%s_loop(s.skip(1 + n as int), plen, len + 1 + n, %s { user_properties: mk_vec(acc.user_properties@.push(v)), ..acc }, used + 1 + n, pt) } }" % (name, name))
+        if is_will:
+            w("            else { PR::Err(ErrorV5::InvalidWillProperty(id)) },")
+        else:
+            w("            else { PR::Err(ErrorV5::InvalidProperty(pt, id)) },")
+        w("    } }")
+        w("}")
+        # unfolding lemmas: one for the loop head / exit / disallowed ids, one per allowed property (each a small query)
+        allowed = " || ".join(["id == PropertyId::%s" % q for q in props] + ["id == PropertyId::UserProperty"])
+        bad = "ErrorV5::InvalidWillProperty(id)" if is_will else "ErrorV5::InvalidProperty(pt, id)"
+        w("pub proof fn lemma_%s_head(s: Seq<u8>, plen: nat, len: nat, acc: %s, used: nat, pt: PacketType)" % (name, name))
+        w("    ensures")
+        w("        plen <= len ==> p5_%s_loop(s, plen, len, acc, used, pt) == (if plen != len { PR::<%s, ErrorV5>::Err(ErrorV5::InvalidPropertyLength(plen as u32)) } else { PR::<%s, ErrorV5>::Ok(acc, used) })," % (name, name, name))
+        w("        plen > len && s.len() == 0 ==> p5_%s_loop(s, plen, len, acc, used, pt) == PR::<%s, ErrorV5>::Inc," % (name, name))
+        w("        plen > len && s.len() > 0 ==> (match property_id_of(s[0]) {")
+        w("            Err(e) => p5_%s_loop(s, plen, len, acc, used, pt) == PR::<%s, ErrorV5>::Err(e)," % (name, name))
+        w("            Ok(id) => !(%s) ==> p5_%s_loop(s, plen, len, acc, used, pt) == PR::<%s, ErrorV5>::Err(%s) })," % (allowed, name, name, bad))
+        w("{ reveal(p5_%s_loop); }" % name)
+        for q in props + ["UserProperty"]:
+            if q == "UserProperty":
+                stepc = "step_up(s.skip(1))"
+                upd = "%s { user_properties: mk_vec(acc.user_properties@.push(v)), ..acc }" % name
+                lenexpr = "len + 1 + n"
+            else:
+                pid, ty, f = PROPS[q]
+                stepc = "step_%s(s.skip(1), PropertyId::%s, acc.%s)" % (ty, q, f)
+                upd = "%s { %s: Some(v), ..acc }" % (name, f)
+                lenexpr = "len + 1 + vlen(v.0 as nat)" if ty == "varint" else "len + 1 + n"
+            w("pub proof fn lemma_%s_arm_%s(s: Seq<u8>, plen: nat, len: nat, acc: %s, used: nat, pt: PacketType)" % (name, q, name))
+            w("    requires plen > len, s.len() > 0, property_id_of(s[0]) == Ok::<PropertyId, ErrorV5>(PropertyId::%s)" % q)
+            w("    ensures p5_%s_loop(s, plen, len, acc, used, pt) == (match %s { PR::Inc => PR::<%s, ErrorV5>::Inc, PR::Err(e) => PR::<%s, ErrorV5>::Err(e)," % (name, stepc, name, name))
+            w("        PR::Ok(v, n) => p5_%s_loop(s.skip(1 + n as int), plen, %s, %s, used + 1 + n, pt) })" % (name, lenexpr, upd))
+            w("{ reveal(p5_%s_loop); }" % name)
+        w("pub open spec fn p5_%s(s: Seq<u8>, pt: PacketType) -> PR<%s, ErrorV5> {" % (name, name))
+        w("    match p_varint(s) { PR::Inc => PR::Inc, PR::Err(e) => PR::Err(ErrorV5::Common(e)),")
+        w("        PR::Ok(plen, n0) => p5_%s_loop(s.skip(n0 as int), plen as nat, 0, empty_%s(), n0, pt) }" % (name, name))
+        w("}")
+    w("@endspec")
+    w("")
+    for name, mod, props, is_will in SETS:
+        # ---------------- decode_async
+        w("@fn %s::{%s}::decode_async" % (mod, name))
+        w("@props C01 C03 C04 C06 C07 C11 C12 C14 C20")
+        w("@attr #[verifier::rlimit(300)]")
+        w("@attr #[verifier::spinoff_prover]")
+        w("@ensures")
+        pt = "PacketType::Connect" if is_will else "packet_type"
+        w("  #refines: rd_post5(p5_%s(old(reader).stream(), %s), r, *old(reader), *final(reader))" % (name, pt))
+        w("@entry")
+        w("  let ghost s0 = reader.stream();")
+        w("@before `let mut len = 0 ;`")
+        w("  let ghost mut used: nat = _bytes as nat;")
+        w("  proof { assert(properties.user_properties@ =~= Seq::<UserProperty>::empty()); assert(properties == empty_%s()); }" % name)
+        w("@loop 1")
+        w("  @invariant")
+        w("    #frame: reader.end_kind() == old(reader).end_kind() && s0 == old(reader).stream() && used <= s0.len() && reader.stream() == s0.skip(used as int) && p_varint(s0) == PR::<u32, Error>::Ok(property_len, _bytes as nat)")
+        w("    #refines: p5_%s(s0, %s) == p5_%s_loop(reader.stream(), property_len as nat, len as nat, properties, used, %s)" % (name, pt, name, pt))
+        w("  @decreases (if property_len as usize > len { property_len as usize - len } else { 0 })")
+        w("  @top")
+        w("    let ghost sc = reader.stream();")
+        w("    let ghost p0 = properties;")
+        w("    let ghost len0 = len as nat;")
+        w("    proof { lemma_%s_head(sc, property_len as nat, len0, p0, used, %s); }" % (name, pt))
+        w("  @bottom")
+        w("    proof {")
+        w("        let n = (sc.len() - reader.stream().len()) as nat;")
+        w("        assert(n >= 1);")
+        w("        assert(sc.skip(1).skip(n as int - 1) =~= sc.skip(n as int));")
+        w("        assert(reader.stream() =~= s0.skip(used as int + n as int));")
+        w("        used = used + n;")
+        w("    }")
+        for q in props + ["UserProperty"]:
+            w("@after `PropertyId :: %s => {`" % q)
+            w("  proof { lemma_%s_arm_%s(sc, property_len as nat, len0, p0, used, %s); }" % (name, q, pt))
+        w("@before `if property_len as usize != len {`")
+        w("  proof { lemma_%s_head(reader.stream(), property_len as nat, len as nat, properties, used, %s); }" % (name, pt))
+        w("@end")
+        w("")
+    dec_out = out
+    out = enc_out
+    w = out.append
     for name, mod, props, is_will in SETS:
         ipath = "%s::{Encodable for %s}" % (mod, name)
         w("@implspec %s" % ipath)
@@ -212,8 +332,10 @@ def gen():
         w("  proof { assert(property_len == ups.len() + ups_sum4(ups) + enc_%s_upto_%d(*self).len()); assert(property_len == enc_%s_body(*self).len()); lemma_vlen_enc(property_len as nat); }" % (name, len(props), name))
         w("@end")
         w("")
-    return "\n".join(out) + "\n"
+    return "\n".join(out) + "\n", "\n".join(dec_out) + "\n"
 
 
 if __name__ == "__main__":
-    open(sys.argv[1] if len(sys.argv) > 1 else "/verif/contracts/v5props.vc", "w").write(gen())
+    a, b = gen()
+    open("/verif/contracts/v5props.vc", "w").write(a)
+    open("/verif/contracts/v5pdec.vc", "w").write(b)
